@@ -26,6 +26,8 @@ import plumpy  # noqa: E402,F401
 class DetLoop(asyncio.SelectorEventLoop):
     """`step_one()` runs the FIFO head of the ready queue and nothing else; the harness decides what happens in between."""
 
+    _closed = True      # a loop object created without __init__ (an aborted deep copy) must still be collectable quietly
+
     def __init__(self):
         super().__init__()
         self._vtime = 0.0
